@@ -6,7 +6,7 @@ from lib import *
 from graphs import *
 
 THEOREMS = ["Parmcb.C10." + t for t in ["c10_strip_newline", "c10_strip_no_newline", "c10_roundtrip", "c10_undeclared", "c10_undeclared_read",
-            "c10_has_loops", "c10_has_non_positive", "c10_has_multiple", "c10_pinned_strip_counterexample"]]
+            "c10_has_loops", "c10_has_non_positive", "c10_has_multiple", "c10_pinned_strip_counterexample", "c10_classify_edge_line", "c10_classify_problem_line", "c10_classify_comment", "c10_text_roundtrip"]]
 
 def gen_text(r, malformed=False):
     """-> (text, expected) ; expected = ('ok', n, [(u,v,weight_token_or_None)]) or ('error',)"""
@@ -70,7 +70,7 @@ def oracle(expected, block):
 
 def run(tier, replay=None):
     res = Result("C10", tier, "proof")
-    res.assumptions = ["fgets/sscanf/strtod on well-formed lines behave as the tokenisation glue `classify` (validated by the correspondence, not reasoned about)",
+    res.assumptions = ["fgets/sscanf/strtod on well-formed lines behave as the char-level tokeniser `classify` of the model (tied by the correspondence); that tokeniser is PROVED to read back every rendered text: c10_classify_* and c10_text_roundtrip (any spacing, e/a tags, omitted unit weights, decimal weights, comments anywhere, final newline or not)",
                        "decimal -> double rounding of strtod (compared against python's float())"]
     lean_ok = lean_gate(res, "Parmcb.Props.C10", THEOREMS)
     binary, log = compile_harness("h_dimacs.cpp", libs=(), tbb=False, mpi=False, sanitize=(tier == "thorough"))
